@@ -115,16 +115,16 @@ Qed.
 
 Theorem nick_ref_total h name t :
   NickInv h -> NickTables h -> lookupS name (n2t h) = Some t ->
-  get0 name (nc h) <> 0 -> 0 <= get0 name (lc h) ->
+  get0 name (nc h) <> 0 -> 0 <= get0 name (lnc h) ->
   exists lo hi, ref_range h name = Ok (Some name, t, lo, hi) /\ 1 <= lo <= hi /\ hi = get0 name (nc h) /\
     forall d, lo <= d <= hi -> exists i, random_ref h name d = Ok (t, i).
 Proof.
   intros HI HT Hl Hnz Hlc. destruct (HI name) as (H0 & H1 & _).
   unfold ref_range. rewrite Hl. destruct (get0 name (nc h) =? 0) eqn:E; [lia|].
-  set (m := get0 name (nc h)) in *. set (min0 := get0 name (lc h) + 1).
+  set (m := get0 name (nc h)) in *. set (min0 := get0 name (lnc h) + 1).
   exists (if m <? min0 then 1 else min0), m.
   assert (Hb : 1 <= (if m <? min0 then 1 else min0) <= m).
-  { unfold min0. destruct (m <? get0 name (lc h) + 1) eqn:E2; lia. }
+  { unfold min0. destruct (m <? get0 name (lnc h) + 1) eqn:E2; lia. }
   split; [reflexivity|]. split; [exact Hb|]. split; [reflexivity|].
   intros d Hd. unfold random_ref, ref_range. rewrite Hl. fold m. rewrite E. cbn [bind]. fold min0.
   assert (Hr : ((if m <? min0 then 1 else min0) <=? d) && (d <=? m) = true) by lia.
